@@ -257,6 +257,9 @@ fn write_file_contents<'data, A: Arch<Platform = Elf>>(
         .try_for_each(|(group, mut buffers)| -> Result {
             verbose_timing_phase!("Write group");
 
+            #[cfg(wild_verif)]
+            crate::verif::sched_point(50);
+
             let mut table_writer = TableWriter::from_layout(
                 layout,
                 group.dynstr_start_offset,
